@@ -8,11 +8,13 @@
 //  gccphat / gccphat.multi          |gccphat(shift(x, d) + noise, x, fs).tau * fs - d| <= 0.5
 //  peakloc.real                     vertex of the parabola through the three samples around idx (cyclic neighbours)
 //  detector.present / .absent       PreambleDetector against the documented formula evaluated in long double
+//  detector.reset                   histories on one object: traffic, reset(), stream - the stream is handled as by a fresh detector
 //
 // Shifts of complex data are made by the harness itself (own zero-fill shift), real shifts are made by the harness as
 // well and delayseq() is compared with them bit-exactly in the same case, so a delayseq defect is not reported as a
 // finddelay defect.
 #include "vf.hpp"
+#include <functional>
 #include <memory>
 #include <optional>
 
@@ -363,7 +365,7 @@ static void run_detector(Ctx& ctx, bool T) {
     const double thrs[] = {0.3, 0.5, 0.7, 0.9};
     const int NFR = 4;
     for (const Preamble& pr : pre) {
-        if (!ctx.wants("detector.present") && !ctx.wants("detector.absent")) break;
+        if (!ctx.wants("detector.present") && !ctx.wants("detector.absent") && !ctx.wants("detector.reset")) break;
         const int nh = pr.h.size();
         int fl = 0;
         double rms_h = 0;
@@ -404,7 +406,9 @@ static void run_detector(Ctx& ctx, bool T) {
         };
 
         // runs one detector over the stream, fpc frames per call; e < 0: nothing expected
-        auto run_one = [&](const arr_cmplx& s, const DetRef& R, double thr, int fpc, int e, const char* site) {
+        // `history` (optional) is applied to the detector object before the stream: earlier traffic followed by reset()
+        using History = std::function<void(PreambleDetector&, int /*fpc*/)>;
+        auto run_one = [&](const arr_cmplx& s, const DetRef& R, double thr, int fpc, int e, const char* site, const History& history = History()) {
             // decide whether the documented statistic gives an unambiguous expectation
             bool near = false, other = false;
             for (int i = 0; i < N; ++i) {
@@ -419,12 +423,13 @@ static void run_detector(Ctx& ctx, bool T) {
                                   : (e >= 0 ? "reference crosses threshold away from the preamble end" : "reference crosses threshold without preamble")));
                 return;
             }
-            ctx.note(fmt("detector config checked thr=%.1f (%s)", thr, e >= 0 ? "preamble present" : "no preamble"));
+            ctx.note(fmt("detector config checked thr=%.1f (%s%s)", thr, e >= 0 ? "preamble present" : "no preamble", history ? ", after history + reset()" : ""));
             PreambleDetector det(pr.h, thr);
             if (det.frame_len() != fl) {
                 ctx.fail(site, fmt("frame_len()=%d", det.frame_len()), fmt("%d as for the probe object", fl), P().kv("kind", "setup"));
                 return;
             }
+            if (history) history(det, fpc);
             const int blk = fpc * fl;
             const int ce = e >= 0 ? e / blk : -1;
             for (int c = 0; c < NFR / fpc; ++c) {
@@ -491,6 +496,71 @@ static void run_detector(Ctx& ctx, bool T) {
                         for (double thr : thrs)
                             for (int fpc : {1, 2}) run_one(s, R, thr, fpc, e, "PreambleDetector.process");
                         GUARD_END("PreambleDetector.process")
+                    }
+                }
+            }
+        }
+        // ---- histories on ONE detector object: earlier traffic, reset(), then a stream that must be handled exactly as by a
+        // fresh detector (same expectations as detector.present: call, offset, bit-exact extract, score within 1e-9 of the
+        // reference of the second stream alone).  hist: a = stream with a preamble at another offset (detected), b = noise-only
+        // traffic at the preamble's power, c = traffic cut at a frame boundary in the middle of a preamble, d = nothing.
+        {
+            std::vector<int> roffs;
+            if (T) roffs = det_offsets(fl, nh, false);
+            else {
+                std::set<int> so;
+                for (int v : {0, nh / 2, nh - 1, fl - 1})
+                    if (v >= 0 && v < fl) so.insert(v);
+                roffs.assign(so.begin(), so.end());
+            }
+            auto feed = [&](PreambleDetector& det, const arr_cmplx& s1, int nframes, int fpc) {
+                // nframes frames of s1, fpc frames per call (a remainder is fed frame by frame)
+                int done = 0;
+                while (done < nframes) {
+                    const int nf = (nframes - done >= fpc) ? fpc : 1;
+                    arr_cmplx blk(nf * fl);
+                    for (int i = 0; i < nf * fl; ++i) blk[i] = s1[done * fl + i];
+                    (void)det.process(blk);
+                    done += nf;
+                }
+            };
+            const char* HN[4] = {"a", "b", "c", "d"};
+            for (int off : roffs) {
+                for (int hist = 0; hist < 4; ++hist) {
+                    for (int embed = 0; embed < 2; ++embed) {
+                        for (double A : amps) {
+                            if (!ctx.take("detector.reset", P().kv("preamble", pr.name).kv("hist", HN[hist]).kv("off", off).kv("floor", embed).kv("amp", A))) continue;
+                            GUARD_BEGIN
+                            const int e = 1 * fl + off;
+                            const int start = e - nh + 1;
+                            arr_cmplx s = make_stream(embed, A, start);
+                            DetRef R = det_reference(pr.h, s, rms_h);
+                            ctx.nontrivial();
+                            ctx.note(std::string("detector history ") + HN[hist] + " + reset()");
+                            arr_cmplx s1;
+                            int nfr1 = 0;
+                            if (hist == 0) {
+                                const int off1 = (off + fl / 3 + 1) % fl;
+                                s1 = make_stream(embed, A, fl + off1 - nh + 1);
+                                nfr1 = NFR;
+                            } else if (hist == 1) {
+                                s1 = arr_cmplx(N);
+                                const double g = A * (double)rms_true / std::sqrt(2.0);   // noise power = preamble power
+                                for (int k = 0; k < N; ++k) s1[k] = cmplx_t{g * lcg_gauss(162, (uint64_t)k), g * lcg_gauss(163, (uint64_t)k)};
+                                nfr1 = NFR;
+                            } else if (hist == 2) {
+                                // preamble occupying the last nh/2 samples of frame 0 and continuing in frame 1; only frame 0 is fed
+                                s1 = make_stream(embed, A, fl - nh / 2);
+                                nfr1 = 1;
+                            }
+                            History h = [&](PreambleDetector& det, int fpc) {
+                                if (nfr1 > 0) feed(det, s1, nfr1, fpc);
+                                det.reset();
+                            };
+                            for (double thr : thrs)
+                                for (int fpc : {1, 2}) run_one(s, R, thr, fpc, e, "PreambleDetector.reset", h);
+                            GUARD_END("PreambleDetector.reset")
+                        }
                     }
                 }
             }
